@@ -91,6 +91,18 @@ CHECKS = {
    note='Trusted: Lean kernel, the hand-written model (validated by >100k compared operations per thorough run), harness. Out of the '
         'model: buffer-protocol constructors, elementwise functions, printing, integer overflow of i entries.',
    technique='Lean 4 proof over a hand-written reference model + op-sequence correspondence'),
+ 'C19': dict(
+   category='proof',
+   text='The argument-checking prefix of all 34 wrappers of blas.c is translated from the C source into Lean functions on every run; for each '
+        'routine the theorem accept -> footprint inside the Python buffers is re-proved for all integer arguments, flags and buffer sizes '
+        '(ideal arithmetic), against a hand-written footprint specification of the reference BLAS; dense index paths are proved in range. '
+        'The translated decision is compared with the real wrapper on boundary boxes in a crash-safe worker; the C-int evaluation of the same '
+        'checks is searched for accepted tuples with a footprint outside the buffers, which are executed on the gcc -O2 build.',
+   design_ref='DESIGN.md 5 C19',
+   note='Trusted: Lean kernel, cwrap2lean (parser, emission), footprints.py. The full-range statement in C int arithmetic is false: int '
+        'overflow witnesses segfault 32 of 34 wrappers (known findings, one per routine). lapack.c, base.c products, sparse.c and '
+        'misc_solvers.c are not yet translated (see DESIGN.md).',
+   technique='Lean 4 proof over Lean functions translated from C + differential run against the real wrappers + overflow witness search'),
 }
 REASONS = {}
 def main():
